@@ -75,7 +75,7 @@ func checkC06(c *Ctx) {
 	c.Run.Floor = 40
 	sel := shapeSel{
 		ExtraTypes: commonExtras,
-		Forms: []string{"top", "field"}, QuickDeep: 60, QuickRand: 20, ThorRand: 300, BatchSize: 44,
+		Forms:      []string{"top", "field"}, QuickDeep: 60, QuickRand: 20, ThorRand: 300, BatchSize: 44,
 		KeepShape: func(t *pgen.Type) bool {
 			if !behaviouralShape(t) || !exportedOnly(t) {
 				return false
